@@ -1,5 +1,6 @@
 """C12 - Prolog text cannot become Python code; loaded code sees only the engine API."""
 import itertools
+import os
 
 from .. import impl, pyast
 from .. import refgrammar as rg
@@ -18,7 +19,7 @@ RULE = ('every string of length <= 3 [quick: length 3 only in 5 of the 17 positi
         'definitions only, no Attribute/Import/Lambda/Global/class/decorator/default, every name read is local or an '
         'engine API name, no API name is assigned; (iii) dynamic - the output is loaded with __builtins__ replaced by a '
         'recording mapping and call-counting wrappers around every context entry: loading performs no call and no '
-        'builtin lookup, running the defined predicates performs no builtin lookup; texts that contain a line separator or a payload are also compiled with ALL debug options on (debug stream + code, hostile file name) and judged by the same rules. Plus hostile queries: every attribute name of the engine object, every API '
+        'builtin lookup, running the defined predicates performs no builtin lookup; texts that contain a line separator or a payload are also compiled with ALL debug options on (debug stream + code, hostile file name), written to a file and loaded through load_script_from_file - the text that the loader hands to compile() is judged by the same rules. Plus hostile queries: every attribute name of the engine object, every API '
         'name, context key, dunder name and payload as predicate name x arity 0..3 x hostile arguments must yield '
         'nothing, call no API function through the context and touch no builtin. states = distinct (position, '
         'outcome) classes; transitions = compile/load/query operations; non-trivial = code was produced for a hostile string')
@@ -49,6 +50,10 @@ def _breakouts():
 
 
 BREAKOUTS = _breakouts()
+# texts that are harmless as they stand and become a quote + code when the file is decoded with the
+# codec they themselves name (a coding declaration works from inside a comment on line 1 or 2)
+BREAKOUTS += ['coding:utf_7 a+ACc-,zq7)): #', 'coding=utf-7 a+ACc-))), zq7 #', '-*- coding: utf_7 -*- +ACcAKQApACk-: zq7 #',
+              'coding:utf_16 a', 'coding:rot13 n', 'coding:unicode_escape a\\x27,zq7)): #', 'coding:raw_unicode_escape a\\u0027,zq7)): #']
 INTERNAL_NAMES = ['$CUTIF', '$cutif', '$CUT', '$BREAK', '$VAR', 'cutIf1', 'doBreak', '$CUTIF_1', '$IF', '$label']
 INTERNAL_TEMPLATES = ['p :- %n(%s), q.', 'p :- q, %n(%s).', 'p :- %n(%s).', 'p :- ( a -> %n(%s) ; b ).', 'p :- %n(%s, b), q.',
                       'p :- ( %n(%s) -> a ; b ), c.', 'p :- \\+ %n(%s), q.', 'p(X) :- %n(X, %s), q(X).']
@@ -171,6 +176,36 @@ def internal_methods(n, kind):
     return _internal[key]
 
 
+def load_through_file(yp, out):
+    """writes the text to a file the way the command line does and loads it with
+    load_script_from_file; -> the text that the loader handed to compile() (None if it did not)"""
+    import builtins
+    import shutil
+    import tempfile
+    d = tempfile.mkdtemp(prefix='verif-c12-')
+    captured = []
+
+    def spy(source, *a, **kw):
+        if isinstance(source, (str, bytes)):
+            captured.append(source if isinstance(source, str) else source.decode('utf8', 'replace'))
+        return builtins.compile(source, *a, **kw)
+    had = 'compile' in impl.engine.__dict__
+    old = impl.engine.__dict__.get('compile')
+    impl.engine.__dict__['compile'] = spy
+    try:
+        path = os.path.join(d, 'prog.py')
+        with open(path, 'w') as f:
+            f.write(out)
+        yp.load_script_from_file(path)
+    finally:
+        if had:
+            impl.engine.__dict__['compile'] = old
+        else:
+            del impl.engine.__dict__['compile']
+        shutil.rmtree(d, ignore_errors=True)
+    return captured[-1] if captured else None
+
+
 class DebugCtx:
     debug_filename = True
     debug_parser = True
@@ -226,7 +261,26 @@ def check_program_1(text, debug):
     yp, rec, calls = instrumented_engine()
     before = set(yp.eval_context)
     try:
-        yp.load_script_from_string(out, fn=impl.SCRIPT_FN)
+        if debug:
+            # the text goes through a FILE, as with `yldpc -o prog.py` followed by
+            # load_script_from_file: what the loader hands to compile() is what counts, whatever it
+            # makes of the bytes (encodings, coding declarations in comments, line ends)
+            seen_by_loader = load_through_file(yp, out)
+            if seen_by_loader is not None and seen_by_loader != out:
+                try:
+                    probs = pyast.check_module(seen_by_loader)
+                except SyntaxError:
+                    probs = []
+                if probs:
+                    return ('violation', 'loader-reads-other-text:structure:' + probs[0][0],
+                            'source: %r\nthe file written by the compiler, as read by load_script_from_file, is compiled as another text: %s\n--- text handed to compile()\n%s'
+                            % (text, probs[0][1], seen_by_loader[-700:]), None)
+                bad = pyast.provenance(seen_by_loader, MARK) if MARK in text else []
+                if bad:
+                    return ('violation', 'loader-reads-other-text:provenance:' + bad[0][0],
+                            'source: %r\nas read by load_script_from_file, source text reached the code as %s: %r' % (text, bad[0][0], bad[0][1]), None)
+        else:
+            yp.load_script_from_string(out, fn=impl.SCRIPT_FN)
     except Exception as e:  # noqa: BLE001
         if rec.lookups or calls:
             return ('violation', 'load-executes-code', 'source: %r\nloading raised %r after builtin lookups %s / API calls %s' % (text, e, rec.lookups[:5], calls[:5]), None)
